@@ -107,6 +107,11 @@ type leaderRec struct {
 	t     int64
 	endT  int64
 	ended bool
+	// C13: since when this leader cannot reach a voter majority
+	lost             bool
+	lostAt           int64
+	lostSeq          uint64
+	lostN, lostTot   int
 }
 
 type checker struct {
@@ -267,6 +272,8 @@ func (c *checker) step(e *sim.Ev) {
 		c.sample(e)
 	case strings.HasPrefix(e.K, "o."):
 		c.observer(e)
+	case strings.HasPrefix(e.K, "x."):
+		c.ext.netEvent(c, e)
 	case e.K == "spin":
 		c.spin = append(c.spin, *e)
 		c.violate("C12", "zero-time-spin", e.Seq, "link %s->%s delivered %d RPCs without virtual time advancing (pattern %s): catch-up repeats the same transfer", e.S, e.X, e.A, e.Y)
@@ -289,10 +296,12 @@ func (c *checker) lifecycle(e *sim.Ev) {
 		// open leadership of the crashed incarnation ends
 		for _, l := range c.leadLog {
 			if l.key.s == e.S && !l.ended {
+				c.ext.leaderEnded(c, l, e.T, "crash")
 				l.ended, l.endT = true, e.T
 			}
 		}
 		delete(c.inflight, e.S)
+		c.ext.reevalMajority(c, e)
 		c.ext.gone(e.S, e.T)
 	case "Lstart":
 		s := c.server(e.S)
@@ -303,6 +312,7 @@ func (c *checker) lifecycle(e *sim.Ev) {
 		s := c.server(e.S)
 		s.up, s.everUp = true, true
 		s.commit, s.applied = e.C, e.D
+		c.ext.reevalMajority(c, e)
 		c.cov("starts")
 		c.checkStarted(s, e)
 	case "Lnewraft.blocked":
